@@ -480,14 +480,28 @@ Definition kd_min_signed (a : kd_att) : list Z :=
   col_min (repeat (2 ^ 31 - 1) (Z.to_nat (ad_nc (k_desc a))))
           (map (map (kd_signed_value (ad_dt (k_desc a)))) (k_rows a)).
 
-(** The uint32 columns an attribute contributes to the point vector (TransformAttributesToPortableFormat +
-    the copy loop of EncodePortableAttributes).  [signed_point[c] - min] is an int32 subtraction: when the
-    span of a component reaches 2^31 it overflows (undefined behaviour; compilers wrap): the model wraps,
-    the theorems carry the span as a premise (defect D9). *)
+Fixpoint col_max (maxs : list Z) (rows : list (list Z)) : list Z :=
+  match rows with
+  | [] => maxs
+  | r :: rest => col_max (map2 (fun m v => if m <? v then v else m) maxs r) rest
+  end.
+Definition kd_max_signed (a : kd_att) : list Z :=
+  col_max (repeat (- 2 ^ 31) (Z.to_nat (ad_nc (k_desc a))))
+          (map (map (kd_signed_value (ad_dt (k_desc a)))) (k_rows a)).
+(** the guard of fix e50b8ba: [att->size() > 0 && (int64)max[c] - min[c] > INT32_MAX] for some component
+    (with no values max - min = INT32_MIN - INT32_MAX < 0, so the size test needs no separate case here) *)
+Definition kd_span_too_large (a : kd_att) : bool :=
+  existsb (fun mm => fst mm - snd mm >? 2 ^ 31 - 1) (combine (kd_max_signed a) (kd_min_signed a)).
+
+(** The uint32 columns an attribute contributes to the point vector (TransformAttributesToPortableFormat + the
+    copy loop of EncodePortableAttributes).  A signed attribute with a component spanning 2^31 or more makes the
+    encode fail (defect D9, fixed in e50b8ba: before, [signed_point[c] - min] overflowed int32 and the stream
+    could not be decoded); below that the int32 subtraction is exact and the result is stored in a uint32. *)
 Definition kd_portable (a : kd_att) : option (list (list Z)) :=
   let dt := ad_dt (k_desc a) in
   if kd_dt_unsigned dt then Some (k_rows a)
   else if kd_dt_signed dt then
+    if kd_span_too_large a then None else
     let mins := kd_min_signed a in
     Some (map (fun row => map2 (fun v m => (kd_signed_value dt v - m) mod 2 ^ 32) row mins) (k_rows a))
   else if dt =? DT_FLOAT32_ then
@@ -616,18 +630,21 @@ Fixpoint kd_dec_mins (descs : list att_desc) (bs : bytes) : option (list (list Z
     end
   end.
 
+(** KUB: the C++ would execute undefined behaviour.  After fix 3b2dbf5 the only source left is the dequantization
+    loop's [UB] (shift count >= 32 / missing minimum), which kd_decode_parameters' checks make unreachable. *)
 Inductive kres (A : Type) := KOk (a : A) | KFail | KUB.
 Arguments KOk {A} _.
 Arguments KFail {A}.
 Arguments KUB {A}.
 
 (** TransformAttributeBackToSignedType<T> for one stored component [u] (the low bytes kept by the output
-    iterator): rejected above INT32_MAX; [int32(u) + min] overflowing int32 is undefined behaviour
-    (reachable from a hostile stream: KUB); the result is cast to T. *)
+    iterator): rejected above INT32_MAX; [u + min] is computed in 64 bits and rejected when it does not fit
+    int32 (before fix 3b2dbf5 the 32-bit sum overflowed: undefined behaviour reachable from a hostile stream,
+    found by this model's explicit UB value); the result is cast to T. *)
 Definition kd_back_signed (dt : Z) (u m : Z) : kres Z :=
   if u >? 2 ^ 31 - 1 then KFail
   else let s := u + m in
-       if (s <? - 2 ^ 31) || (s >? 2 ^ 31 - 1) then KUB
+       if (s <? - 2 ^ 31) || (s >? 2 ^ 31 - 1) then KFail
        else KOk (s mod 2 ^ (8 * dt_len dt)).
 Fixpoint kmap {A B} (f : A -> kres B) (l : list A) : kres (list B) :=
   match l with
